@@ -632,7 +632,9 @@ class ModelDriver:
         if a == "AddUserVar":
             if op["name"] in model.variables:
                 raise Skip("variable exists")
-            v = model.problem.Variable(op["name"], lb=0, ub=3 * self.scale)
+            if op["name"] == "uvr4" and (self.rx["r4"] in model.variables or self.rx["r4"] in model.reactions):
+                raise Skip("variable exists")
+            v = model.problem.Variable(self.rx["r4"] if op["name"] == "uvr4" else op["name"], lb=0, ub=3 * self.scale)
             model.add_cons_vars([v])
             return None
         if a == "RemoveUserCons":
@@ -1045,7 +1047,8 @@ class ModelDriver:
                 seen[r].add(fr)
                 obj[r][fr] = self.num(oc, 1.0, "obj:%s:%s" % (r, fr), inexact)
             else:
-                xcols.append(nm)
+                # (the user variable "uvr4" is NAMED like reaction r4 would name its forward variable)
+                xcols.append("uvr4" if nm == self.rx["r4"] else nm)
                 if oc != 0:
                     objx += 1
         for r in RX:
